@@ -65,7 +65,7 @@ def ft_json(ft):
 
 def slice_bytes(ft, v):
     if isinstance(v, str):
-        return v.encode("utf-16-le"), 2
+        return v.encode("utf-16-le", "surrogatepass"), 2
     return bytes(v), 1
 
 
@@ -159,7 +159,7 @@ def arg_matches(slot, arg, mem, lay):
         return all((not m) or want[i] == gotb[i] for i, m in enumerate(slot["mask"]))
     if "sliceptr" in slot:
         v = slot["sliceptr"]
-        content = v.encode("utf-16-le") if isinstance(v, str) else bytes(v)
+        content = v.encode("utf-16-le", "surrogatepass") if isinstance(v, str) else bytes(v)
         if not content:
             return isinstance(arg, int)
         return mem is not None and mem.startswith(content.hex())
